@@ -21,12 +21,39 @@ IMPORTS = ("From PV Require Import Lib.Common Model.C04_Gmod Model.C04_GS.\n"
            "Import String.StringSyntax. Delimit Scope string_scope with string.")
 SHARD = 12
 SHARD_TIMEOUT = 600
-LEVEL_TEXT = ("TODO")
-LEVEL_NOTE = ("TODO")
+LEVEL_TEXT = ("Coq theorems over an exact-rational executable model of the genomic-model classes: every entry of gebv/gegv/predict is "
+              "intercept + dosage (and heterozygosity) x effects; equivariance of values and labels under any taxon reordering; additivity over "
+              "marker partitions and chromosome phases; var_A/var_G are the population variance of the reported values and order-invariant; "
+              "var_a/bulmer/score equal their definitions (NaN branch characterised); the twelve fa*/da*/na* tables are entry-wise their definitions "
+              "and mutually consistent; Gauss-Seidel is coordinate descent, so the rrBLUP fit is never worse than the all-zero solution on the "
+              "penalised criterion for every training set/ridge/tolerance/iteration limit, intercept = mean, monomorphic markers exactly 0, and the "
+              "normal-equation residual is bounded by atol*sum_{j>i}|A_ij| whenever the loop stops before maxiter. The model is tied to the code by "
+              "evaluating it inside Coq against the implementation's outputs (exact equality for the linear part and counts, 2^-30 tolerance for "
+              "variances/ratios/solver output) on generated models, genotype inputs in three representations, permutations and partitions")
+LEVEL_NOTE = ("trusted: Coq kernel + vm_compute (no axioms: Print Assumptions reports 'Closed under the global context' for every theorem); "
+              "NOT modelled: Nelder-Mead/eigh of rrBLUP_ML0 (the ridge parameter varE/varU is read back from the implementation and the clauses of "
+              "the property are evaluated exactly in Q on the implementation's (beta, u)); the standardisation inside "
+              "DenseBreedingValueMatrix.from_numpy is observed only through unscale()/location/labels; binary64 rounding is not modelled (inputs on "
+              "dyadic grids make the linear part exact; everything else is compared within 2^-30(1+|x|)); theorems are about the Gallina model, "
+              "the tie to the code is differential on generated inputs")
 TECHNIQUE = "Coq proof over an executable exact-rational model; in-Coq vm_compute correspondence with the implementation"
-RULE = ("TODO")
-TRUSTED = []
-ASSUMPTIONS = []
+RULE = ("three kinds of case from one PRNG. lin: class in {additive, additive+dominance, rrBLUPModel0 as container, DenseLinearGenomicModel via a "
+        "stub subclass}, beta (1-4 fixed effects) / u_misc (0-2) / u_a / u_d on the grid k/8 with exact zeros, zero rows and all-zero matrices, 1-3 traits, "
+        "ploidy 1-4, 1-8 taxa (1-24 in thorough) x 1-6 markers (1-16) with columns forced absent / fixed / single-copy / all-heterozygous / polymorphic, "
+        "duplicate taxa, optional phased representation, optional/duplicated taxon labels and groups, a taxon permutation, a marker split point, "
+        "constant phenotypes (SST = 0), raw-array ploidy argument given or defaulted; plus fixed populations at the sizes 49/98/103/107 where "
+        "(1/N)*N != 1. gs: gauss_seidel on 1-4 unknowns (SPD Z'Z+ridge I, symmetric, general, diagonal, occasional zero pivot), atol in "
+        "{0, 2^-20..1, 1e-8}, maxiter 0-6. fit: rrBLUPModel0.fit_numpy/fit (ndarray, GenotypeMatrix, BreedingValueMatrix inputs) on 3-9 records x 1-4 "
+        "markers, 1-2 traits, monomorphic columns at 0/1/2, duplicated polymorphic markers, traits determined exactly by a marker. "
+        "non-trivial = lin: >= 2 taxa, a polymorphic marker, at least two of the three effect signs, non-identity permutation; gs: >= 2 unknowns, "
+        ">= 2 sweeps allowed, atol > 0, b != 0; fit: a polymorphic marker and n > p_polymorphic. distinct by SHA-256 of the case")
+TRUSTED = ["scipy.optimize.minimize (Nelder-Mead) and numpy.linalg.eigh inside rrBLUP_ML0 are not modelled: varE, varU are taken from the implementation",
+           "numpy float64 matmul/sum on dyadic-grid inputs is exact (regime E); var/std/division are compared within 2^-30 (regime T)",
+           "DenseLinearGenomicModel is abstract in /repo: it is exercised through a subclass created by the harness that only empties __abstractmethods__",
+           "classification of C04-gs-maxiter re-runs the implementation's gauss_seidel with maxiter 1000 and 1001 to decide whether the loop was cut by the limit"]
+ASSUMPTIONS = ["effects/covariates/phenotypes on dyadic grids (k/8, k/4), dosages in 0..ploidy stored as int8, at least one taxon, one marker, one fixed effect",
+               "rrBLUP training sets have at least one polymorphic marker and no constant response (outside the property's quantifier otherwise)",
+               "the ridge parameter is positive (varE, varU are exponentials of the optimiser's result)"]
 
 F = Fraction
 EPS40 = F(1, 2 ** 40)
@@ -127,6 +154,7 @@ L_COUNTS = ["facount", "fafreq", "faavail", "fafixed", "dacount", "dafreq", "daa
 
 def _run_fmt(case, m, gt, fmt, perm=None):
     """call every public prediction/variance/statistic method of the model on one genotype representation"""
+    from pybrops.popgen.bvmat.DenseBreedingValueMatrix import DenseBreedingValueMatrix
     n = len(case["dos"]); p = len(case["u_a"]); t = len(case["beta"][0]); q = len(case["beta"])
     pm = 0 if case["u_misc"] is None else len(case["u_misc"])
     X = _mk2(case["X"], q); Zm = _mk2(case["Zm"], pm); Y = _mk2(case["Y"], t)
@@ -155,6 +183,7 @@ def _run_fmt(case, m, gt, fmt, perm=None):
         R["predict"] = _try(lambda: _bv(m.predict(X, gt)))
         R["score_numpy"] = _try(lambda: _hx(m.score_numpy(Y, X, Zfull)))
         R["score"] = _try(lambda: _hx(m.score(Y, X, gt)))
+        R["score_bv"] = _try(lambda: _hx(m.score(DenseBreedingValueMatrix.from_numpy(Y), X, gt)))
         R["var_A"] = _try(lambda: _hx(m.var_A(gt)))
         R["var_G"] = _try(lambda: _hx(m.var_G(gt)))
         R["var_a"] = _try(lambda: _hx(m.var_a(gt, **kw)))
@@ -225,9 +254,15 @@ def _run_fit(case):
     trait = None if case["trait"] is None else numpy.array(case["trait"], dtype=object)
     Y0, Z0 = Y.copy(), Zi.copy()
     with numpy.errstate(all="ignore"):
+        Yseen = Y
         if case["via"] == "fit":
             g = DenseGenotypeMatrix(Zi, ploidy=case["ploidy"])
             m = rrBLUPModel0.fit(Y, None, g, trait=trait)
+        elif case["via"] == "fit_bv":
+            from pybrops.popgen.bvmat.DenseBreedingValueMatrix import DenseBreedingValueMatrix
+            bv = DenseBreedingValueMatrix.from_numpy(Y)
+            Yseen = bv.unscale()                    # what fit() extracts from the matrix object (Y up to rounding)
+            m = rrBLUPModel0.fit(bv, None, DenseGenotypeMatrix(Zi, ploidy=case["ploidy"]), trait=trait)
         elif case["via"] == "fit_raw":
             m = rrBLUPModel0.fit(Y, None, Zi, trait=trait)
         else:
@@ -237,7 +272,7 @@ def _run_fit(case):
         poly = ~numpy.all(Zf == Zf[0, :], axis=0)
         comps = []
         for i in range(Y.shape[1]):
-            r = rrBLUP_ML0(Y[:, i], Zf[:, poly])
+            r = rrBLUP_ML0(Yseen[:, i], Zf[:, poly])
             comps.append({"varE": float(r["varE"]).hex(), "varU": float(r["varU"]).hex(), "ridge": float(r["varE"] / r["varU"]).hex(),
                           "uhat": _hx(r["uhat"]), "betahat": _hx(r["betahat"]), "yhat": _hx(r["yhat"])})
         gebv = m.gebv_numpy(Zf)
@@ -428,7 +463,7 @@ def _pred_fmt(bad, case, R, fmt, D, tagp, perm=None, asis=()):
         _check_bv(bad, tag("predict"), R["predict"], yhat, case, fmt, perm)
     elif not (isinstance(R["predict"], dict) and R["predict"].get("exc") == "ValueError"):
         bad.append(tag("predict") + " accepted a genotype input that lacks the miscellaneous predictors")
-    for nm in ("score_numpy", "score") if pm == 0 else ("score_numpy",):
+    for nm in ("score_numpy", "score", "score_bv") if pm == 0 else ("score_numpy",):
         H = R[nm]
         if not isinstance(H, list): bad.append(tag(nm) + " raised"); continue
         sc = D0["score"] if nm == "score_numpy" else score
@@ -559,6 +594,7 @@ def _emit_fmt(case, R, fmt, pfx, parts):
     parts.append("agree_bv %d %s (predict g %s %s %s)" % (t, _impl_bv(R["predict"]), X, gt, lab))
     parts.append("agree_To %s (score_numpy g %s %s (hcat %s (qz (design g %sgt_unphased))))" % (_impl_ovec(R["score_numpy"]), Y, X, Zm, pfx))
     parts.append("agree_To %s (score g %s %s %s)" % (_impl_ovec(R["score"]), Y, X, gt))
+    parts.append("agree_To %s (score g %s %s %s)" % (_impl_ovec(R["score_bv"]), Y, X, gt))
     parts.append("agree_Tl %s (var_A g %s)" % (_impl_vec(R["var_A"]), gt))
     parts.append("agree_Tl %s (var_G g %s)" % (_impl_vec(R["var_G"]), gt))
     parts.append("agree_Tl %s (var_A g %s)" % (_impl_vec(R["var_A_numpy"]), gt))
@@ -717,7 +753,7 @@ def _gen_fit(rng, big=False):
     for k in range(t):                                       # a constant response has no variance to fit
         if all(Y[i][k] == Y[0][k] for i in range(n)): Y[0][k] += 0.5
     trait = None if rng.random() < 0.5 else ["tr%d" % i for i in range(t)]
-    return {"kind": "fit", "Y": Y, "Z": Z, "trait": trait, "via": rng.choice(["fit_numpy", "fit_numpy", "fit", "fit_raw"]), "ploidy": ploidy}
+    return {"kind": "fit", "Y": Y, "Z": Z, "trait": trait, "via": rng.choice(["fit_numpy", "fit_numpy", "fit", "fit_raw", "fit_bv"]), "ploidy": ploidy}
 
 GS_ATOL = 1e-8
 GS_MAXITER = 1000
@@ -871,7 +907,7 @@ def _special_cases(quick):
 
 def gen_cases(rng, tier):
     quick = tier == "quick"
-    nl, ng, nf = (230, 120, 50) if quick else (2600, 1200, 500)
+    nl, ng, nf = (200, 100, 40) if quick else (2600, 1200, 500)
     cases = []
     for i in range(nl):
         cases.append(_gen_lin(rng, big=(not quick and i % 5 == 0)))
